@@ -9,7 +9,8 @@
    periodic chain are modelled (Model/Problems.v) and tied to /repo by exact comparison of the produced matrices and by
    combinatorial oracles on the implementation (harness/props/c10.py); no theorem about their ground states is claimed. *)
 From QV.Model Require Import Base Matrix Arith Expr Extrema Sat PCBO Logic Convert PCSO Problems.
-From QV.Proofs Require Import BaseProofs KeyProofs ArithProofs PenaltyArith PCBOProofs ProblemsProofs.
+From QV.Proofs Require Import BaseProofs KeyProofs ArithProofs PenaltyArith PCBOProofs ProblemsProofs SetCoverProofs.
+From Coq Require Import Lia.
 Open Scope Q_scope.
 
 (* ---- VertexCover ---- *)
@@ -76,6 +77,42 @@ Theorem C10_bilp_valid : forall S b (xb : label -> bool),
 Proof. exact bilp_valid_iff. Qed.
 Print Assumptions C10_bilp_valid.
 
+(* ---- SetCover (Lucas 5.1), unary and logarithmic counters ----
+   n elements 0..n-1, V the subsets (lists of elements), ws their weights; variables 0..|V|-1 choose subsets, the labels from
+   |V| upwards are the counters.  cnt x V a: number of chosen subsets containing a; sc_cost: weight of the chosen subsets;
+   sc_pen: (1 - sum_m y_m)^2 + (sum_m m y_m - cnt)^2, or (1 + sum_m 2^m y_m - cnt)^2 with log_trick. *)
+Theorem C10_setcover_value : forall n V ws log_trick M A B Qf, sc_to_qubo n V ws log_trick M A B = Ok Qf ->
+  forall x, boolean_env x -> eval x (tm Qf) == B * sc_cost V ws x + A * lsum (sc_pen x n V log_trick M) (seq 0 n).
+Proof. exact sc_value. Qed.
+Print Assumptions C10_setcover_value.
+(* A > B > 0, weights <= 1 (the class requires max weight = 1), every element in some subset, M at least the largest number
+   of subsets sharing an element (the class's default M): every ground state chooses a cover, has energy B * weight, and no
+   cover is lighter *)
+Theorem C10_setcover_ground : forall n V ws lg M A B Qf x, sc_to_qubo n V ws lg M A B = Ok Qf ->
+  0 < B -> B < A -> (forall w, In w ws -> w <= 1) ->
+  (forall a, (a < n)%nat -> sc_filtered V a 0 <> [] /\ (length (sc_filtered V a 0) <= M)%nat) ->
+  boolean_env x -> (forall y, boolean_env y -> eval x (tm Qf) <= eval y (tm Qf)) ->
+  (forall a, (a < n)%nat -> 1 <= cnt x V a)
+  /\ eval x (tm Qf) == B * sc_cost V ws x
+  /\ forall z, boolean_env z -> (forall a, (a < n)%nat -> 1 <= cnt z V a) -> sc_cost V ws x <= sc_cost V ws z.
+Proof. exact sc_ground. Qed.
+Print Assumptions C10_setcover_ground.
+Theorem C10_setcover_valid : forall n V (xb : label -> bool),
+  sc_valid n V xb = true <-> forall a, (a < n)%nat -> exists k, (k < length V)%nat /\ xb k = true /\ sc_in a (nth k V []) = true.
+Proof. exact sc_valid_iff. Qed.
+Print Assumptions C10_setcover_valid.
+
 (* non-vacuity: the path 0-1-2 with A = 2, B = 1 *)
 Example C10_example : exists Qf, vc_to_qubo 3 [(0, 1); (1, 2)]%nat 2 1 = Ok Qf /\ kd Qf = KQuboM /\ (0 < length (tm Qf))%nat.
 Proof. eexists. vm_compute. repeat split. apply Nat.lt_0_succ. Qed.
+
+(* non-vacuity for SetCover: U = {0,1}, V = [{0}; {0,1}; {1}], both counter encodings build, and the instance hypotheses of
+   C10_setcover_ground hold with M = 2 *)
+Example C10_example_setcover :
+  (exists Qf, sc_to_qubo 2 [[0]; [0; 1]; [1]]%nat [1; 1; 1] false 2 2 1 = Ok Qf /\ (0 < length (tm Qf))%nat)
+  /\ (exists Qf, sc_to_qubo 2 [[0]; [0; 1]; [1]]%nat [1; 1; 1] true 2 2 1 = Ok Qf /\ (0 < length (tm Qf))%nat)
+  /\ forall a, (a < 2)%nat -> sc_filtered [[0]; [0; 1]; [1]]%nat a 0 <> [] /\ (length (sc_filtered [[0]; [0; 1]; [1]]%nat a 0) <= 2)%nat.
+Proof.
+  split; [eexists; split; [vm_compute; reflexivity| vm_compute; lia]|]. split; [eexists; split; [vm_compute; reflexivity| vm_compute; lia]|].
+  intros a Ha. destruct a as [|[|a]]; [vm_compute; split; [discriminate| lia]| vm_compute; split; [discriminate| lia]| lia].
+Qed.
